@@ -1,6 +1,6 @@
 /* harnesses for C10: a polygon with any number of vertices */
 uint64_t IN_n, IN_gk;
-double IN_a, IN_b, IN_c, IN_d, IN_e;
+double IN_a, IN_b, IN_c, IN_d, IN_e, IN_f;
 bool IN_xr;
 #if defined(VF_ENTRY_h_poly_translate) || defined(VF_ENTRY_h_poly_scale) || defined(VF_ENTRY_h_poly_mirror) || defined(VF_ENTRY_h_poly_rotate) || defined(VF_ENTRY_h_poly_transform)
 static Polygon c10_poly;
@@ -37,13 +37,12 @@ void h_poly_translate(void) {
 void h_poly_scale(void) {
     c10_poly_state();
     Polygon *this_ = &c10_poly;
-    Vec2 scale_factor, center; VF_IN(double, IN_a); VF_IN(double, IN_b); VF_IN(double, IN_c);
-    scale_factor.x = IN_a; scale_factor.y = IN_b; center.x = IN_c; center.y = IN_b;
+    Vec2 scale_factor, center; VF_IN(double, IN_a); VF_IN(double, IN_b); VF_IN(double, IN_c); VF_IN(double, IN_f);
+    scale_factor.x = IN_a; scale_factor.y = IN_b; center.x = IN_c; center.y = IN_f;
     VF_CALL_V(Polygon__scale, this_, scale_factor, center);
 }
 #endif
 #ifdef VF_ENTRY_h_poly_mirror
-double IN_f;
 void h_poly_mirror(void) {
     c10_poly_state();
     Polygon *this_ = &c10_poly;
@@ -66,8 +65,8 @@ void h_poly_transform(void) {
     c10_poly_state();
     Polygon *this_ = &c10_poly;
     double magnification, rotation; bool x_reflection; Vec2 origin;
-    VF_IN(double, IN_a); VF_IN(double, IN_b); VF_IN(double, IN_c); VF_IN(bool, IN_xr);
-    magnification = IN_a; rotation = IN_b; origin.x = IN_c; origin.y = IN_a; x_reflection = IN_xr;
+    VF_IN(double, IN_a); VF_IN(double, IN_b); VF_IN(double, IN_c); VF_IN(double, IN_f); VF_IN(bool, IN_xr);
+    magnification = IN_a; rotation = IN_b; origin.x = IN_c; origin.y = IN_f; x_reflection = IN_xr;
     VF_CALL_V(Polygon__transform, this_, magnification, x_reflection, rotation, origin);
 }
 #endif
